@@ -144,19 +144,22 @@ fn main() {
                 let mut src = SchedReader::new(payload.clone(), vec![8]).with_fault(Some(k)).with_fault_kind(kind);
                 let r = guarded(|| build(cfg, &key, &mut src, &mut w));
                 let clean = matches!(r, Ok(Ok(())));
-                let ok = if clean { same_as_ref(&w.acc, &mut reference) } else { src.faulted };
-                cx.out.case("", &[], &["build-source-fault".into(), cname.clone(), n.to_string(), k.to_string(), format!("{kind:?}")], &format!("faulted={} clean={} octets={}", src.faulted, clean, w.acc.len()), Some(ok), "fault-builder-source");
+                // a fault must come back as an error value: a panic is not one
+                let panicked = r.is_err();
+                let ok = !panicked && if clean { same_as_ref(&w.acc, &mut reference) } else { src.faulted };
+                cx.out.case("", &[], &["build-source-fault".into(), cname.clone(), n.to_string(), k.to_string(), format!("{kind:?}")], &format!("faulted={} clean={} octets={}{}", src.faulted, clean, w.acc.len(), if panicked { format!(" PANIC {}", r.as_ref().err().map(|p| p.chars().take(90).collect::<String>()).unwrap_or_default()) } else { String::new() }), Some(ok), if panicked { "fault-builder-source-panic" } else { "fault-builder-source" });
                 // builder sink fault
                 let mut w = SchedWriter::new(vec![97], Some(k));
                 let r = guarded(|| build(cfg, &key, &payload[..], &mut w));
                 let clean = matches!(r, Ok(Ok(())));
-                let ok = if w.faulted { !clean } else { clean && same_as_ref(&w.acc, &mut reference) };
-                cx.out.case("", &[], &["build-sink-fault".into(), cname.clone(), n.to_string(), k.to_string()], &format!("faulted={} clean={} octets={}", w.faulted, clean, w.acc.len()), Some(ok), "fault-builder-sink");
+                let panicked = r.is_err();
+                let ok = !panicked && if w.faulted { !clean } else { clean && same_as_ref(&w.acc, &mut reference) };
+                cx.out.case("", &[], &["build-sink-fault".into(), cname.clone(), n.to_string(), k.to_string()], &format!("faulted={} clean={} octets={}{}", w.faulted, clean, w.acc.len(), if panicked { " PANIC" } else { "" }), Some(ok), if panicked { "fault-builder-sink-panic" } else { "fault-builder-sink" });
                 // reader source fault
                 let src = SchedBufReader::new(reference.clone(), vec![16]).with_fault(Some(k)).with_fault_kind(kind);
                 let (r, got) = read_msg(cfg, &pk, src, (k % 3) as u8, &[13]);
                 // an error, or the complete right answer (the fault was never reached); never a clean shorter or different payload
-                let ok = match &r { Ok((o, s)) => *o == payload && *s, Err(_) => true };
+                let ok = match &r { Ok((o, s)) => *o == payload && *s, Err(e) => !e.starts_with("PANIC") };
                 cx.out.case("", &[], &["read-source-fault".into(), cname.clone(), n.to_string(), k.to_string(), format!("{kind:?}")], &match &r { Ok((o, _)) => format!("clean end with {} of {} octets", o.len(), payload.len()), Err(_) => format!("error after {got} octets") }, Some(ok), "fault-reader-source");
             }
         }
